@@ -199,8 +199,9 @@ class FetchSim:
         return Client()
 
 
-def install(sim):
-    """Replace the seams (all existing module attributes / methods)."""
+def install(sim, keep_state=False):
+    """Replace the seams (all existing module attributes / methods).  keep_state: this fetch runs in a
+    process that has fetched before - whatever the SUT keeps at module / class level stays."""
     from mwlib.network import fetch, sapi
     from mwlib.network.http_client import HttpClientManager
     from mwlib.utils import conf
@@ -233,15 +234,15 @@ def install(sim):
 
     fetch.FsOutput = RecordingFsOutput
     # per-run state the SUT keeps at module / class level
-    fetch.Fetcher.titles_pending_contributor_lookup.clear()
-    fetch.Fetcher.title_mapping.clear()
-    fetch._download_rate_limiter.clear()
-    fetch._download_rate_limiter_rps.clear()
-    sapi.MwApi._rate_limiters.clear()
-    sapi.MwApi._rate_limiter_rps.clear()
-    sapi.MwApi._token_info.clear()
-    sapi.MwApi.request_counter = 0
-    HttpClientManager._clients.clear()
+    if not keep_state:
+        for obj, name in ((fetch.Fetcher, "titles_pending_contributor_lookup"), (fetch.Fetcher, "title_mapping"),
+                          (fetch, "_download_rate_limiter"), (fetch, "_download_rate_limiter_rps"),
+                          (sapi.MwApi, "_rate_limiters"), (sapi.MwApi, "_rate_limiter_rps"), (sapi.MwApi, "_token_info"),
+                          (HttpClientManager, "_clients")):
+            c = getattr(obj, name, None)
+            if hasattr(c, "clear"):
+                c.clear()
+        sapi.MwApi.request_counter = 0
     if not conf.config.has_section("fetch"):
         conf.config.add_section("fetch")
     for k in ("api_request_limit", "api_result_limit", "rvlimit", "max_connections", "max_requests_per_second", "max_retry_count"):
@@ -315,9 +316,22 @@ def close_dbs(objs):
 def run_fetch(spec, fsdir, rng=None, latencies=None, config=None, step_cap=20000, vtime_cap=2.0e6):
     """One complete simulated fetch + oracle.  Returns a result dict (violation or None)."""
     from mwlib.apps.make_nuwiki import make_nuwiki
+    t0, keep = 0.0, False
+    if (config or {}).get("prior_fetch"):
+        # configuration "the process has fetched before": the same book is fetched once, quietly
+        # (constant latencies, result not judged), and everything the SUT keeps at module or
+        # class level is left as it is for the fetch that is judged
+        pc = dict(config, prior_fetch=False, latency="constant", p_stall=0.0, window=-1.0)
+        pr = run_fetch(spec, fsdir + "-prior", rng=None, latencies=[], config=pc, step_cap=step_cap, vtime_cap=vtime_cap)
+        import shutil
+        shutil.rmtree(fsdir + "-prior", ignore_errors=True)
+        t0, keep = pr["sim_seconds"] + 1000.0, True
     world = World(spec)
     sim = FetchSim(world, rng=rng, latencies=latencies, config=config)
-    install(sim)
+    sim.now = t0
+    if keep:
+        sim.count("config:process-has-fetched-before")
+    install(sim, keep_state=keep)
     violation = None
     outcome = {}
     devnull = open(os.devnull, "w")
@@ -363,8 +377,8 @@ def run_fetch(spec, fsdir, rng=None, latencies=None, config=None, step_cap=20000
                                           "and no request, download or sleep is pending (simulated deadlock) after "
                                           f"{sim.steps} steps")
                     break
-                if sim.steps >= step_cap or sim.now > vtime_cap:
-                    violation = Violation("T-term", f"fetch still running after {sim.steps} steps / {sim.now:.0f} virtual seconds")
+                if sim.steps >= step_cap or sim.now - t0 > vtime_cap:
+                    violation = Violation("T-term", f"fetch still running after {sim.steps} steps / {sim.now - t0:.0f} virtual seconds")
                     break
                 sim.steps += 1
                 sim.release_next()
@@ -396,7 +410,7 @@ def run_fetch(spec, fsdir, rng=None, latencies=None, config=None, step_cap=20000
         uninstall(sim)
     from .kernel import stable_hash
     return {"violation": violation.as_dict() if violation else None, "digest": sim.digest.hex(), "steps": sim.steps,
-            "sim_seconds": sim.now, "latencies": sim.used_latencies, "counters": sim.counters,
+            "sim_seconds": sim.now - t0, "latencies": sim.used_latencies, "counters": sim.counters,
             "hub_errors": sim.hub_errors, "max_pending": sim.max_pending,
             "interleaving": stable_hash(sim.interleave_sig)}
 
